@@ -272,6 +272,14 @@ func TestC04Restart(t *testing.T) {
 		mode := (c.Index / 4) % 4             // 0 restart request, 1 UpdateValidationStatus, 2 restart after process restart with the type not registered, 3 validation update for an unknown channel
 		out := genOutcome(c, c.Index/12)
 		f := newMgrFix(c, self, nil)
+		// the terms the channel was first accepted under: none, or a data limit and a finalization
+		// requirement - a later re-validation replaces them with whatever IT decides (also with "none")
+		if r.Intn(2) == 0 {
+			f.val.SetOutcome(func(kind string, n int, ch datatransfer.ChannelID) (datatransfer.ValidationResult, error) {
+				return datatransfer.ValidationResult{Accepted: true, DataLimit: uint64(500 + r.Intn(5000)), RequiresFinalization: r.Intn(2) == 0}, nil
+			})
+			c.Count("first_accepted_with_terms", 1)
+		}
 		v := gen.Voucher(r, gen.Pick(r, regTypes))
 		tid := datatransfer.TransferID(1 + r.Intn(1<<30))
 		chid := f.mkResponder(pull, other, tid, v)
